@@ -486,3 +486,12 @@ Proof.
   split; [vm_compute; reflexivity|]. split; [vm_compute; reflexivity|]. split; [vm_compute; reflexivity|].
   split; [vm_compute; reflexivity|]. split; [vm_compute; reflexivity | vm_compute; discriminate].
 Qed.
+
+(* the value is mixed in with all of its 32 bits: for a fixed running hash, different values (e.g.
+   the hashes of two nested definitions, however little they differ) give different results *)
+Lemma rothash_value_injective_lemma : forall r v1 v2, rothash r v1 = rothash r v2 -> v1 = v2.
+Proof.
+  intros r v1 v2 H. unfold rothash in H. apply N.lxor_eq.
+  apply N.lxor_eq_0_iff in H. rewrite <- H.
+  apply N.bits_inj. intro n. rewrite !N.lxor_spec. btauto.
+Qed.
